@@ -1,10 +1,16 @@
 use crate::{Prop, Tier};
 
+pub mod c06;
 pub mod c15;
+pub mod c16;
+pub mod c17;
 
 pub fn get(id: &str, tier: Tier, seed: u64) -> Option<Prop> {
     Some(match id {
+        "C06" => c06::prop(tier, seed),
         "C15" => c15::prop(tier, seed),
+        "C16" => c16::prop(tier, seed),
+        "C17" => c17::prop(tier, seed),
         _ => return None,
     })
 }
